@@ -507,3 +507,112 @@ func Verif_C12_AttributionDeclsParsed(kind, k int) {
 func Verif_C12_DocTextParsed(n, m, multi int) {
 	vWithRealParser(func() { Verif_C12_DocText(n, m, multi) })
 }
+
+// ---------------------------------------------------------------- C13 on really type-checked source
+//
+// Verif_C13_Source(k): a package whose source is a fixed set of package-scope
+// declarations (types A, B, generic G[P], constants K, functions F) plus k
+// further declarations, each a symbolic choice from a menu of shapes that put
+// same-named objects into types.Info.Defs (function-local types and constants,
+// type parameters named like package-scope types, nested closures, aliases,
+// methods with value / pointer receivers on plain and generic types, init, a
+// blank function). The source goes through the real parser and the real type
+// checker; the real newPkg indexes it under the configured map orders; the
+// oracle is the checker's own view: the package scope and the method sets.
+
+var vC13Menu = []string{
+	"func f%() {\n\ttype A int\n\t_ = A(0)\n}",
+	"func f%() {\n\tconst K = 2\n\t_ = K\n}",
+	"func f%[A any](x A) {}",
+	"type H%[A any] struct{ v A }",
+	"func (A) M%() {}",
+	"func (*A) P%() {}",
+	"func (G[P]) GM%() {}",
+	"func (*G[A]) GP%() {}",
+	"type L% = A",
+	"func f%() {\n\ttype F int\n\t_ = F(0)\n}",
+	"func f%() {\n\tconst A = 1\n\t_ = A\n}",
+	"func init() {}",
+	"func _() {}",
+	"func f%() {\n\ttype B struct{}\n\t_ = func() {\n\t\ttype A B\n\t\t_ = A{}\n\t}\n}",
+	"const C% = 3",
+	"type T% struct{ A int }",
+	"var V% = func() int {\n\ttype K int\n\treturn int(K(1))\n}()",
+	"func (b B) BM%() (A int) { return }",
+}
+
+func Verif_C13_Source(k int) {
+	src := "package p\n\ntype A struct{}\n\ntype B int\n\ntype G[P any] struct{ p P }\n\nconst K = 1\n\nfunc F() {}\n\nvar V int\n\n"
+	choice := make([]int, k)
+	for i := 0; i < k; i++ {
+		choice[i] = verifsym.IntRange(0, len(vC13Menu)-1)
+		src += strings.ReplaceAll(vC13Menu[choice[i]], "%", string([]byte{'0' + byte(i)})) + "\n\n"
+	}
+	verifsym.Observe("choice", choice)
+	fset := token.NewFileSet()
+	pp := vCheckSource(fset, "example.com/m/p", "p", "/src/m/p/p.go", src, nil)
+	p := vC14Pkg(fset, pp)
+	scope := pp.Types.Scope()
+
+	nT, nC, nF := 0, 0, 0
+	for _, name := range scope.Names() {
+		switch o := scope.Lookup(name).(type) {
+		case *types.TypeName:
+			nT++
+			verifsym.Assert(p.Type(name) == o, "Type(name) is not the package-scope type of that name")
+			verifsym.Assert(p.Types()[name] == o, "Types() does not hold the package-scope type under its name")
+		case *types.Const:
+			nC++
+			verifsym.Assert(p.Constant(name) == o, "Constant(name) is not the package-scope constant of that name")
+			verifsym.Assert(p.Constants()[name] == o, "Constants() does not hold the package-scope constant under its name")
+		case *types.Func:
+			nF++
+			verifsym.Assert(p.Function(name) == o, "Function(name) is not the package-scope function of that name")
+			verifsym.Assert(p.Functions()[name] == o, "Functions() does not hold the package-scope function under its name")
+		}
+	}
+	verifsym.Assert(len(p.Types()) == nT, "Types() is not exactly the package-scope type names")
+	verifsym.Assert(len(p.Constants()) == nC, "Constants() is not exactly the package-scope constants")
+	extra := 0
+	for name := range p.Functions() {
+		if name != "init" && name != "_" {
+			extra++
+		}
+	}
+	verifsym.Assert(extra == nF, "Functions() (init and blank functions aside) is not exactly the package-scope functions")
+
+	// method sets: exactly the methods the checker attached to the type
+	for _, tn := range []string{"A", "B", "G"} {
+		named := scope.Lookup(tn).Type().(*types.Named)
+		for round := 0; round < 2; round++ {
+			val := p.MethodsOf(named, false)
+			all := p.MethodsOf(named, true)
+			nVal := 0
+			for i := 0; i < named.NumMethods(); i++ {
+				m := named.Method(i)
+				_, ptr := m.Type().(*types.Signature).Recv().Type().(*types.Pointer)
+				inAll, inVal := 0, 0
+				for _, x := range all {
+					if x.Name() == m.Name() {
+						inAll++
+					}
+				}
+				for _, x := range val {
+					if x.Name() == m.Name() {
+						inVal++
+					}
+				}
+				verifsym.Assert(inAll == 1, "a declared method is missing from (or listed twice in) MethodsOf(T, true)")
+				if ptr {
+					verifsym.Assert(inVal == 0, "MethodsOf(T, false) lists a pointer-receiver method")
+				} else {
+					nVal++
+					verifsym.Assert(inVal == 1, "a value-receiver method is missing from (or listed twice in) MethodsOf(T, false)")
+				}
+			}
+			verifsym.Assert(len(all) == named.NumMethods(), "MethodsOf(T, true) is not exactly T's declared methods")
+			verifsym.Assert(len(val) == nVal, "MethodsOf(T, false) is not exactly T's value-receiver methods")
+		}
+	}
+	verifsym.Reach("end")
+}
